@@ -1,0 +1,38 @@
+//!
+//! Verification hooks.  Only compiled with the `verif-hooks` feature (off by default).
+//!
+//! Provides a thread-local logical step counter that is ticked at the head of every
+//! data-dependent loop in the iterator and writer, so that an external monitor can
+//! bound the work done by a single API call without relying on wall-clock time.
+//!
+
+use std::cell::Cell;
+
+thread_local! {
+    static STEPS: Cell<u64> = const { Cell::new(0) };
+    static LIMIT: Cell<u64> = const { Cell::new(u64::MAX) };
+}
+
+/// Message of the panic raised by [`tick`] when the step limit is exceeded.
+pub const BUDGET_MARKER: &str = "verif: step budget exceeded";
+
+/// Resets the step counter of the current thread and installs a new limit.
+pub fn reset(limit: u64) {
+    STEPS.with(|s| s.set(0));
+    LIMIT.with(|l| l.set(limit));
+}
+
+/// Number of steps counted on the current thread since the last [`reset`].
+pub fn steps() -> u64 {
+    STEPS.with(|s| s.get())
+}
+
+/// Counts one loop iteration; panics with [`BUDGET_MARKER`] beyond the limit.
+#[inline]
+pub fn tick() {
+    let n = STEPS.with(|s| { let n = s.get() + 1; s.set(n); n });
+    if n > LIMIT.with(|l| l.get()) {
+        LIMIT.with(|l| l.set(u64::MAX));
+        panic!("{}", BUDGET_MARKER);
+    }
+}
